@@ -49,7 +49,7 @@ def generate(rng, tier, index):
         # PCT-style: 1-3 forced switches at line events inside the client code
         sched['preempt_lines'] = sorted(set(rng.randrange(1, 2500) for _ in range(rng.randint(1, 3))))
     return {'property': ID, 'harness': 'cli', 'client': {'kind': kind, 'framing': framing, 'kwargs': kw},
-            'callers': callers, 'cpu_step': rng.choice([1e-5, 1e-4]), 'sched': sched,
+            'callers': callers, 'cpu_step': rng.choice([2e-6, 1e-5, 5e-5]), 'sched': sched,
             'preconnect': rng.random() < 0.85}
 
 
@@ -60,7 +60,7 @@ def systematic(tier):
         callers = build(rng, kind, framing, 2, [1, 1], [0.001, 0.004])
         base = {'property': ID, 'harness': 'cli', 'client': {'kind': kind, 'framing': framing,
                                                              'kwargs': {'timeout': 0.5, 'retries': 1}},
-                'callers': callers, 'cpu_step': 1e-4, 'sched': {'choices': [], 'tail_seed': 0}, 'preconnect': True}
+                'callers': callers, 'cpu_step': 1e-5, 'sched': {'choices': [], 'tail_seed': 0}, 'preconnect': True}
         # length of the all-first schedule
         probe = copy.deepcopy(base)
         probe['sched']['choices'] = [0] * 400
